@@ -64,8 +64,13 @@ static int64_t vr_param_value (OrcProgram * p, int var, int k)
     case 2: { int c[] = { 2, -32768, 32767, 0, -1, 0x1234, 255, 256 }; return c[k % 8]; }
     case 4: { int c[] = { 2, (int) 0x80000000, 0x7fffffff, 0, -1, 0x12345678, 65535, 65536 }; return c[k % 8]; }
     default: {
+      /* an 8-byte parameter declared with plain ".param" travels through an int in the C prototype: only values
+       * every path represents the same way (non-negative, 31 bits) */
+      if (v->param_type == ORC_PARAM_TYPE_INT) { int64_t ci[] = { 2, 0x7fffffff, 0, 0x12345678, 65535, 65536, 1, 255 }; return ci[k % 8]; }
+      {
       int64_t c[] = { 2, (int64_t) 0x8000000000000000ULL, 0x7fffffffffffffffLL, 0, -1, 0x123456789abcdef0LL, 0xffffffffLL, 0x100000000LL };
       return c[k % 8];
+      }
     }
   }
 }
@@ -136,7 +141,7 @@ typedef struct {
   VShape sh;
 } VArena;
 
-static int vr_float_mode;		/* set by engines that compare float programs across paths */
+static int vr_float_mode;		/* 0 exact; 1 across execution paths (NaN payloads, hardware FTZ, min/max zero sign); 2 NaN sign/payload only */
 static long vr_ftz_before_rounding;
 
 static void vr_arena_alloc (VArena * A, OrcProgram * p, const VRunCfg * c)
@@ -259,15 +264,15 @@ static int vr_compare (VArena * X, VArena * R, const VRunCfg * c, OrcExecutor * 
               uint32_t g, w; memcpy (&g, rx + 4 * e, 4); memcpy (&w, rq + 4 * e, 4);
               if (g == w) continue;
               if ((g & 0x7f800000u) == 0x7f800000u && (g & 0x7fffffu) && (w & 0x7f800000u) == 0x7f800000u && (w & 0x7fffffu)) continue;
-              if ((g & 0x7fffffffu) == 0 && (w & 0x7fffffffu) == 0x00800000u && (g >> 31) == (w >> 31)) { vr_ftz_before_rounding++; continue; }
-              if (X->sh.float_minmax && (g & 0x7fffffffu) == 0 && (w & 0x7fffffffu) == 0) continue;
+              if (vr_float_mode == 1 && (g & 0x7fffffffu) == 0 && (w & 0x7fffffffu) == 0x00800000u && (g >> 31) == (w >> 31)) { vr_ftz_before_rounding++; continue; }
+              if (vr_float_mode == 1 && X->sh.float_minmax && (g & 0x7fffffffu) == 0 && (w & 0x7fffffffu) == 0) continue;
               differ = 1;
             } else {
               uint64_t g, w; memcpy (&g, rx + 8 * e, 8); memcpy (&w, rq + 8 * e, 8);
               if (g == w) continue;
               if ((g & 0x7ff0000000000000ULL) == 0x7ff0000000000000ULL && (g & 0xfffffffffffffULL) && (w & 0x7ff0000000000000ULL) == 0x7ff0000000000000ULL && (w & 0xfffffffffffffULL)) continue;
-              if ((g & 0x7fffffffffffffffULL) == 0 && (w & 0x7fffffffffffffffULL) == 0x0010000000000000ULL && (g >> 63) == (w >> 63)) { vr_ftz_before_rounding++; continue; }
-              if (X->sh.float_minmax && (g & 0x7fffffffffffffffULL) == 0 && (w & 0x7fffffffffffffffULL) == 0) continue;
+              if (vr_float_mode == 1 && (g & 0x7fffffffffffffffULL) == 0 && (w & 0x7fffffffffffffffULL) == 0x0010000000000000ULL && (g >> 63) == (w >> 63)) { vr_ftz_before_rounding++; continue; }
+              if (vr_float_mode == 1 && X->sh.float_minmax && (g & 0x7fffffffffffffffULL) == 0 && (w & 0x7fffffffffffffffULL) == 0) continue;
               differ = 1;
             }
           }
